@@ -46,6 +46,9 @@ SHAPES = {
 }
 
 
+BATCHED = ('shapeB', 'shapeC')      # shapes also evaluated with batch_size=2
+
+
 def symbols(spec):
     out = []
     def walk(x):
@@ -216,6 +219,20 @@ def generate():
             rate_args = 'P ' + ' '.join(syms) + ' ' + ' '.join(parvars)
             main_terms = [f'lpois d{b} ({shape}_bin{b} {rate_args})' for b in range(nb)]
             cons = constraint_terms(spec, info, par_index)
+            # ---- batched evaluation: Model(spec, batch_size=2) on two symbolic parameter rows; each row of the result must be the unbatched function of its own row
+            if shape in BATCHED:
+                def run_batch():
+                    m = pyhf.Model(symbolic(spec), poi_name='mu', validate=False, batch_size=2)
+                    rows = np.asarray([[var(f'r{t}_' + lean_par(n)) for n in m.config.par_names] for t in range(2)], dtype=object)
+                    res = m.expected_actualdata(rows)
+                    assert np.shape(res) == (2, nb), np.shape(res)
+                    return [sx.lit(x) for x in np.ravel(res)]
+                btree = sx.paths(run_batch, positive=syms)
+                bsig = ('(P : Prim K) (' + ' '.join(syms) + ' : K) (' + ' '.join('r0_' + v for v in parvars) + ' : K) (' + ' '.join('r1_' + v for v in parvars) + ' : K)')
+                for t in range(2):
+                    for b in range(nb):
+                        out.append(f'/-- row {t}, bin {b} of `Model(spec, batch_size=2).expected_actualdata` on the parameter rows r0, r1 -/')
+                        out.append(f'def {shape}_batch_row{t}_bin{b} {bsig} : K :=\n{sx.lean_tree(project(btree, t * nb + b))}\n')
             out.append(f'/-- the template: one Poisson term per bin on the rates above, one constraint term per constrained parameter component in `auxdata_order` -/')
             out.append(f'def {shape}_logpdf_ref {lsig} : K :=\n  (' + ' + '.join(main_terms) + ')' + (' + (' + ' + '.join(cons) + ')' if cons else '') + '\n')
     finally:
